@@ -7,6 +7,10 @@ PyFloatBinop, PyNumberBinop, PyObjectCompare) together with the selection rule o
 every site x every operand of the scaled instance: FastPath = Reference or delegated to the
 generic protocol, no C undefined behaviour - except on the declared hazard paths, whose cells it
 publishes.
+Float constants of the sites: a base set plus the boundary family BndFloatConsts (integral doubles around
+2^SHIFT, 2^(2 SHIFT), 2^MANT, 2^(MANT+1), 2^(LONG-1), both signs; real: 2^30-1..2^30+2, 2^53-1, 2^53, 2^53+2, 2^54,
+2^60, 2^63); the case class RoundCollision (int != constant, (double) int == constant; invariant ExactCompare) must be
+inhabited in the model and in the real replay for every comparison operator x order x sign.
 Binding: (1) the Python mirror (lib_pylong) is validated cell by cell against the TLC rows and
 then evaluated at the real parameters (SHIFT=30, 64-bit long, 53-bit mantissa);
 (2) B3: for every compiled site the helper the real compiler selected is read from the generated
